@@ -43,14 +43,22 @@ func c14ErrCode(err error) int {
 }
 
 func init() {
+	// a hang is reported by a MONITOR line; after a few of them the scenario stops (every further case would spend its
+	// whole deadline, and goroutines of the abandoned Workers values pile up)
 	register("C14K1", func(h *hctx) {
-		for i := 0; i < h.n; i++ {
-			c14GatedCase(h, i)
+		hangs := 0
+		for i := 0; i < h.n && hangs < 3; i++ {
+			if !c14GatedCase(h, i) {
+				hangs++
+			}
 		}
 	})
 	register("C14K2", func(h *hctx) {
-		for i := 0; i < h.n; i++ {
-			c14Burst(h, i)
+		hangs := 0
+		for i := 0; i < h.n && hangs < 2; i++ {
+			if !c14Burst(h, i) {
+				hangs++
+			}
 		}
 	})
 }
@@ -64,7 +72,8 @@ type c14Thread struct {
 	issued int
 }
 
-func c14GatedCase(h *hctx, id int) {
+// c14GatedCase returns false when the case got stuck (strand / no quiescence).
+func c14GatedCase(h *hctx, id int) bool {
 	w := new(Workers)
 	var mu sync.Mutex // guards outs, started, ended
 	started := map[int]int{}
@@ -74,9 +83,10 @@ func c14GatedCase(h *hctx, id int) {
 	base := libGoroutineCount()
 
 	// ---- program ----
-	nthreads := 2 + h.rng.Intn(4)
+	nthreads := 2 + h.rng.Intn(5)
 	maxk := 1 + h.rng.Intn(4)
-	shape := h.rng.Intn(4) // 0 random counts, 1 uniform, 2 decreasing over time, 3 increasing
+	shape := h.rng.Intn(5)        // 0 random counts, 1 uniform, 2/4 decreasing over time, 3 increasing
+	buildUp := h.rng.Intn(2) == 0 // driver prefers invocations while any is possible: the queue fills behind gated functions
 	threads := make([]*c14Thread, nthreads)
 	seq := 0
 	total := 0
@@ -91,7 +101,7 @@ func c14GatedCase(h *hctx, id int) {
 				switch shape {
 				case 1:
 					k = maxk
-				case 2:
+				case 2, 4:
 					k = maxk - seq
 					if k < 1 {
 						k = 1
@@ -225,7 +235,7 @@ func c14GatedCase(h *hctx, id int) {
 			}
 		}
 		h.rng.Shuffle(len(avail), func(i, j int) { avail[i], avail[j] = avail[j], avail[i] })
-		if na == 1 && len(avail) > 1 && avail[0].ty == 1 && h.rng.Intn(100) < 35 {
+		if len(avail) > 1 && avail[0].ty == 1 && (buildUp && h.rng.Intn(100) < 85 || na == 1 && h.rng.Intn(100) < 35) {
 			for i, a := range avail {
 				if a.ty == 0 {
 					avail[0], avail[i] = avail[i], avail[0]
@@ -326,6 +336,7 @@ func c14GatedCase(h *hctx, id int) {
 	if len(ops) > 0 {
 		h.line("K1 workers k1-%d-%d %s # %s | %s", h.seed, id, ints(cfg), joinRecs(ops), joinRecs(outs))
 	}
+	return !stuck
 }
 
 func c14QueueLen(w *Workers) int {
@@ -336,7 +347,8 @@ func c14QueueLen(w *Workers) int {
 
 // ---------------------------------------------------------------------------------------------------- C14K2
 
-func c14Burst(h *hctx, id int) {
+// c14Burst returns false when a call or Wait hung.
+func c14Burst(h *hctx, id int) bool {
 	w := new(Workers)
 	n := 6 + h.rng.Intn(30)
 	uniform := h.rng.Intn(3) == 0
@@ -414,7 +426,7 @@ func c14Burst(h *hctx, id int) {
 		}(i)
 	}
 	close(start)
-	deadline := time.After(10 * time.Second)
+	deadline := time.After(4 * time.Second)
 	own := 0
 	for i := 0; i < n; i++ {
 		select {
@@ -425,9 +437,9 @@ func c14Burst(h *hctx, id int) {
 				monitor("result identity: call %d returned (%v, error code %d)", i, r.v, c14ErrCode(r.err))
 			}
 		case <-deadline:
-			monitor("starvation: call %d (count %d) has not returned after 10s", i, ks[i])
+			monitor("starvation: call %d (count %d) has not returned after 4s", i, ks[i])
 			h.line("F c14_burst k2-%d-%d %s | %d %d %d %d", h.seed, id, ints(ks), own, -1, w.Count(), -1)
-			return
+			return false
 		}
 	}
 	once := 0
@@ -441,6 +453,7 @@ func c14Burst(h *hctx, id int) {
 	waited := make(chan struct{})
 	go func() { w.Wait(); close(waited) }()
 	c1, c2 := -1, -1
+	hung := false
 	select {
 	case <-waited:
 		c1 = w.Count()
@@ -448,8 +461,9 @@ func c14Burst(h *hctx, id int) {
 		if c1 != 0 {
 			monitor("Wait returned but Count()=%d", c1)
 		}
-	case <-time.After(10 * time.Second):
-		monitor("Wait did not return within 10s after every call returned (Count()=%d)", w.Count())
+	case <-time.After(4 * time.Second):
+		monitor("Wait did not return within 4s after every call returned (Count()=%d)", w.Count())
+		hung = true
 	}
 	if uniform && peak.Load() > int64(maxk) {
 		monitor("bound: peak concurrency %d with every caller passing %d", peak.Load(), maxk)
@@ -460,4 +474,5 @@ func c14Burst(h *hctx, id int) {
 		h.count("bursts_with_overlap", 1)
 	}
 	h.line("F c14_burst k2-%d-%d %s | %d %d %d %d", h.seed, id, ints(ks), own, once, c1, c2)
+	return !hung
 }
